@@ -293,7 +293,7 @@ def reference_compute(call, f1_version):
     try:
         write_sources(d, f1_version, big=call['list'] == 'BIG')
         p = subprocess.run([PY, '-m', 'mc.cachefs', 'ref', json.dumps(call)], cwd=d, env=child_env(),
-                           capture_output=True, text=True, timeout=600)
+                           capture_output=True, text=True, timeout=3600)
         if p.returncode != 0 or not p.stdout.startswith('{'):
             raise RuntimeError('reference child failed: rc=%s %s' % (p.returncode, p.stderr[-600:]))
         return json.loads(p.stdout)
@@ -519,11 +519,11 @@ def strace_available():
         return False
 
 
-def _strace_cmd(logpath, classes, inject, call, result_path):
+def _strace_cmd(logpath, classes, inject, call):
     cmd = ['strace', '-f', '-o', logpath, '-s', '0', '-e', 'trace=' + ','.join(classes)]
     if inject:
         cmd += ['-e', 'inject=%s:signal=KILL:when=%d' % inject]
-    cmd += [PY, '-m', 'mc.cachefs', 'call', json.dumps(call), result_path]
+    cmd += [PY, '-m', 'mc.cachefs', 'call', json.dumps(call)]
     return cmd
 
 
@@ -563,10 +563,9 @@ def census(workdir, call, scratch):
         w = os.path.join(d, 'w')
         shutil.copytree(workdir, w)
         log = os.path.join(d, 'log')
-        res = os.path.join(d, 'result')
-        p = subprocess.run(_strace_cmd(log, MUTATING, None, call, res), cwd=w, env=child_env(),
-                           capture_output=True, text=True, timeout=900)
-        if p.returncode != 0:
+        p = subprocess.run(_strace_cmd(log, MUTATING, None, call), cwd=w, env=child_env(),
+                           capture_output=True, text=True, timeout=3600)
+        if p.returncode != 0 or not p.stdout.startswith('{'):
             raise RuntimeError('strace dry run failed rc=%s: %s' % (p.returncode, p.stderr[-500:]))
         calls = parse_strace(log)
         pids = sorted({pid for pid, _, _ in calls})
@@ -577,9 +576,7 @@ def census(workdir, call, scratch):
             counters[sc] = counters.get(sc, 0) + 1
             if interesting(sc, args):
                 points.setdefault(sc, []).append((counters[sc], descriptor(sc, args)))
-        with open(res) as f:
-            outcome = json.load(f)
-        return points, outcome
+        return points, json.loads(p.stdout)
     finally:
         shutil.rmtree(d, ignore_errors=True)
 
@@ -589,19 +586,17 @@ def crash_run(w, call, sc, n, scratch):
     n-th `sc` syscall.  Returns (killed?, descriptor of the call it was killed on)."""
     fd, log = tempfile.mkstemp(prefix='strace-', dir=scratch)
     os.close(fd)
-    res = log + '.result'
     try:
-        p = subprocess.run(_strace_cmd(log, [sc], (sc, n), call, res), cwd=w, env=child_env(),
-                           capture_output=True, text=True, timeout=900)
+        subprocess.run(_strace_cmd(log, [sc], (sc, n), call), cwd=w, env=child_env(),
+                       capture_output=True, text=True, timeout=3600)
         calls = parse_strace(log)
         with open(log, errors='replace') as f:
             killed = 'killed by SIGKILL' in f.read()
         last = descriptor(calls[-1][1], calls[-1][2]) if calls else None
         return killed, last, len(calls)
     finally:
-        for x in (log, res):
-            if os.path.exists(x):
-                os.unlink(x)
+        if os.path.exists(log):
+            os.unlink(log)
 
 
 # --------------------------------------------------------------------------------------
@@ -693,8 +688,7 @@ def main(argv):
         return 0
     if mode == 'call':
         out = do_call(call)
-        with open(argv[3], 'w') as f:
-            f.write(json.dumps(out))
+        sys.stdout.write(json.dumps(out))
         return 0
     return 2
 
